@@ -151,3 +151,174 @@ Fixpoint space_cycles (k : nat) (sp : space) : result space :=
   | O => Ok sp
   | S k' => dor sp' <- space_load (space_save sp); space_cycles k' sp'
   end.
+
+(* ==== vocabulary of the source-translation link for C02 ====
+   (harness/src_functions.py C02_*, generated file Generated/SrcPersist.v, proofs Proofs/C02Source.v)
+   What an HDF5 file holds while batchie writes / reads it: [h5raw] = its datasets and its attributes BY NAME, in
+   creation order.  The translated save_h5 methods build an h5raw with one [h5_create] per create_dataset call, the
+   translated load_h5 methods read it back with one [h5_read_*] per f[NAME][:].  A dataset value is one of five array
+   kinds; a 2-d array carries shape[1] (so that an array without rows still has an arity, see the header).
+   Strings: [bname] is a UTF-8 ENCODED string (an element of a bytes array).  It is the same Coq type as [name]
+   (the codec is the identity on valid NUL-free strings, header bullet 2), but the translator treats the two type NAMES
+   as different, so a missing / doubled encode_string_array or decode_string_array is refused.
+   A Python mapping (Screen.treatment_mapping, .sample_mapping) is a TUPLE of aligned arrays: [tmap_cols] / [smap_cols]
+   of the model's row list; m[i] is the i-th projection.
+   Error tags: 30 KeyError (no dataset / attribute of that name), 31 create_dataset of an existing name,
+   32 the stored array is of another kind than the reader expects / the 2-d shapes of one file disagree. *)
+From Coq Require String.
+Import String.StringSyntax.
+Local Delimit Scope string_scope with string.
+
+Definition h5_2d (T : Type) : Type := (nat * list (list T))%type.     (* (shape[1], rows) *)
+Definition bname : Type := name.
+Inductive h5val : Type :=
+| V_S2 (a : h5_2d bname)        (* 2-d bytes *)
+| V_N2 (a : h5_2d Z)            (* 2-d numeric: dose keys, ids *)
+| V_S1 (a : list bname)         (* 1-d bytes *)
+| V_N1 (a : list Z)             (* 1-d numeric: dose keys, ids, float64 bit patterns *)
+| V_B1 (a : list bool).         (* 1-d bool *)
+Record h5raw : Type := { h_data : list (String.string * h5val); h_attrs : list (String.string * name) }.
+
+(* the names batchie uses *)
+Definition K_treatment_names : String.string := "treatment_names"%string.
+Definition K_treatment_doses : String.string := "treatment_doses"%string.
+Definition K_treatment_ids : String.string := "treatment_ids"%string.
+Definition K_treatment_mapping_names : String.string := "treatment_mapping_names"%string.
+Definition K_treatment_mapping_doses : String.string := "treatment_mapping_doses"%string.
+Definition K_treatment_mapping_ids : String.string := "treatment_mapping_ids"%string.
+Definition K_observations : String.string := "observations"%string.
+Definition K_observation_mask : String.string := "observation_mask"%string.
+Definition K_sample_ids : String.string := "sample_ids"%string.
+Definition K_sample_names : String.string := "sample_names"%string.
+Definition K_sample_mapping_names : String.string := "sample_mapping_names"%string.
+Definition K_sample_mapping_ids : String.string := "sample_mapping_ids"%string.
+Definition K_plate_ids : String.string := "plate_ids"%string.
+Definition K_plate_names : String.string := "plate_names"%string.
+Definition K_control_treatment_name : String.string := "control_treatment_name"%string.
+
+(* h5py.File(path, "w"): a new, empty file *)
+Definition h5_empty : h5raw := {| h_data := []; h_attrs := [] |}.
+Fixpoint h5_find {V : Type} (k : String.string) (l : list (String.string * V)) : option V :=
+  match l with
+  | [] => None
+  | (k', v) :: r => if String.eqb k' k then Some v else h5_find k r
+  end.
+(* f.create_dataset(k, data=v[, compression="gzip"]): a new dataset; a name that exists is refused *)
+Definition h5_create (w : h5raw) (k : String.string) (v : h5val) : result h5raw :=
+  match h5_find k (h_data w) with
+  | Some _ => Err 31
+  | None => Ok {| h_data := h_data w ++ [(k, v)]; h_attrs := h_attrs w |}
+  end.
+(* f.attrs[k] = v: set or replace *)
+Fixpoint h5_put (l : list (String.string * name)) (k : String.string) (v : name) : list (String.string * name) :=
+  match l with
+  | [] => [(k, v)]
+  | (k', v') :: r => if String.eqb k' k then (k', v) :: r else (k', v') :: h5_put r k v
+  end.
+Definition h5_set_attr (w : h5raw) (k : String.string) (v : name) : h5raw :=
+  {| h_data := h_data w; h_attrs := h5_put (h_attrs w) k v |}.
+(* f[k][:], by the kind of array the caller goes on to use *)
+Definition h5_read_s2 (w : h5raw) (k : String.string) : result (h5_2d bname) :=
+  match h5_find k (h_data w) with Some (V_S2 a) => Ok a | Some _ => Err 32 | None => Err 30 end.
+Definition h5_read_n2 (w : h5raw) (k : String.string) : result (h5_2d Z) :=
+  match h5_find k (h_data w) with Some (V_N2 a) => Ok a | Some _ => Err 32 | None => Err 30 end.
+Definition h5_read_s1 (w : h5raw) (k : String.string) : result (list bname) :=
+  match h5_find k (h_data w) with Some (V_S1 a) => Ok a | Some _ => Err 32 | None => Err 30 end.
+Definition h5_read_n1 (w : h5raw) (k : String.string) : result (list Z) :=
+  match h5_find k (h_data w) with Some (V_N1 a) => Ok a | Some _ => Err 32 | None => Err 30 end.
+Definition h5_read_b1 (w : h5raw) (k : String.string) : result (list bool) :=
+  match h5_find k (h_data w) with Some (V_B1 a) => Ok a | Some _ => Err 32 | None => Err 30 end.
+(* f.attrs[k] *)
+Definition h5_attr (w : h5raw) (k : String.string) : result name :=
+  match h5_find k (h_attrs w) with Some v => Ok v | None => Err 30 end.
+
+(* the representation map  raw file -> [file] / [sfile]: every dataset and attribute of the record is there under
+   its name, with its kind; the three 2-d datasets of a screen file have the same shape[1] *)
+Definition h5_close (w : h5raw) : result file :=
+  dor tn <- h5_read_s2 w K_treatment_names;
+  dor td <- h5_read_n2 w K_treatment_doses;
+  dor ti <- h5_read_n2 w K_treatment_ids;
+  dor tmn <- h5_read_s1 w K_treatment_mapping_names;
+  dor tmd <- h5_read_n1 w K_treatment_mapping_doses;
+  dor tmi <- h5_read_n1 w K_treatment_mapping_ids;
+  dor ob <- h5_read_n1 w K_observations;
+  dor mk <- h5_read_b1 w K_observation_mask;
+  dor si <- h5_read_n1 w K_sample_ids;
+  dor sn <- h5_read_s1 w K_sample_names;
+  dor smn <- h5_read_s1 w K_sample_mapping_names;
+  dor smi <- h5_read_n1 w K_sample_mapping_ids;
+  dor pi <- h5_read_n1 w K_plate_ids;
+  dor pn <- h5_read_s1 w K_plate_names;
+  dor c <- h5_attr w K_control_treatment_name;
+  if Nat.eqb (fst td) (fst tn) && Nat.eqb (fst ti) (fst tn) then
+    Ok {| f_arity := fst tn; f_tnames := snd tn; f_tdoses := snd td; f_tids := snd ti;
+          f_tm_names := tmn; f_tm_doses := tmd; f_tm_ids := tmi; f_obs := ob; f_mask := mk;
+          f_sids := si; f_snames := sn; f_sm_names := smn; f_sm_ids := smi; f_pids := pi; f_pnames := pn;
+          f_ctrl := c |}
+  else Err 32.
+Definition h5_close_space (w : h5raw) : result sfile :=
+  dor tn <- h5_read_s1 w K_treatment_names;
+  dor td <- h5_read_n1 w K_treatment_doses;
+  dor ti <- h5_read_n1 w K_treatment_ids;
+  dor sn <- h5_read_s1 w K_sample_names;
+  dor si <- h5_read_n1 w K_sample_ids;
+  dor c <- h5_attr w K_control_treatment_name;
+  Ok {| g_tnames := tn; g_tdoses := td; g_tids := ti; g_snames := sn; g_sids := si; g_ctrl := c |}.
+
+(* a mapping as the tuple of its arrays *)
+Definition tmap_arrays : Type := (list name * list Z * list Z)%type.
+Definition smap_arrays : Type := (list name * list Z)%type.
+Definition tmap_cols (m : tmapping) : tmap_arrays :=
+  (map (fun e => fst (fst e)) m, map (fun e => snd (fst e)) m, map snd m).
+Definition smap_cols (m : nmapping) : smap_arrays := (map fst m, map snd m).
+
+(* attribute reads self.<name> of a Screen object: the columns of its rows / its id arrays / its mappings *)
+Definition sc_tnames (s : screen) : h5_2d name := (s_arity s, map (fun r => map fst (r_treats r)) (s_rows s)).
+Definition sc_tdoses (s : screen) : h5_2d Z := (s_arity s, map (fun r => map snd (r_treats r)) (s_rows s)).
+Definition sc_tids (s : screen) : h5_2d Z := (s_arity s, s_tids s).
+Definition sc_obs (s : screen) : list Z := map r_obs (s_rows s).
+Definition sc_mask (s : screen) : list bool := map r_mask (s_rows s).
+Definition sc_snames (s : screen) : list name := map r_sample (s_rows s).
+Definition sc_pnames (s : screen) : list name := map r_plate (s_rows s).
+
+(* Screen(treatment_names=, treatment_doses=, sample_names=, plate_names=, observations=, observation_mask=,
+          control_treatment_name=, treatment_mapping=, sample_mapping=) on ARRAYS: row i is made of the i-th entries;
+   arrays of different lengths / shapes are refused (tag 1); an argument that is not passed is None
+   (control_treatment_name: the default ""); mapping id arrays read from a file have an integer dtype (header bullet 4) *)
+Definition arrays_screen (tn : h5_2d name) (td : h5_2d Z) (sn pn : list name)
+    (ob : option (list Z)) (mk : option (list bool)) (ctrl : option name)
+    (tm : option tmap_arrays) (sm : option smap_arrays) : result screen :=
+  let n := List.length sn in
+  let obs := match ob with Some o => o | None => repeat 0 n end in             (* overwritten by mk_screen when not given *)
+  let msk := match mk with Some m => m | None => repeat false n end in
+  match (if Nat.eqb (fst td) (fst tn) then zip_rows sn pn (snd tn) (snd td) obs msk else None),
+        match tm with Some (a, b, c) => option_map Some (zip_tmap a b c) | None => Some None end,
+        match sm with Some (a, b) => option_map Some (zip_nmap a b) | None => Some None end with
+  | Some rows, Some tmo, Some smo =>
+      mk_screen rows (fst tn) (match ctrl with Some c => c | None => [] end)
+                (option_map (fun m => (m, true)) tmo) (option_map (fun m => (m, true)) smo)
+                (match ob with Some _ => true | None => false end) (match mk with Some _ => true | None => false end)
+  | _, _, _ => Err 1
+  end.
+
+(* ExperimentSpace(treatment_mapping=, sample_mapping=, control_treatment_name=) on arrays: stores them *)
+Definition arrays_space (tm : tmap_arrays) (sm : smap_arrays) (ctrl : name) : result space :=
+  match zip_tmap (fst (fst tm)) (snd (fst tm)) (snd tm), zip_nmap (fst sm) (snd sm) with
+  | Some t, Some s => Ok {| sp_tmap := t; sp_smap := s; sp_ctrl := ctrl |}
+  | _, _ => Err 1
+  end.
+
+(* ---- the string codec helpers encode_string_array / decode_string_array (translated too) ----
+   np.char.encode(a) / np.char.decode(a, "utf-8") work elementwise and are the identity on valid NUL-free strings
+   (header bullet 2) - but on an array WITHOUT elements numpy returns an empty float64 array (of shape (0,) unless the
+   first dimension is non-zero), which is not a string array and cannot be stored / decoded as one: tag 33.  (That was
+   the defect repaired in /repo 81a412f; the helpers guard the call with `arr.size == 0`.)
+   np.empty(a.shape, dtype=...) is an array of a's shape with unspecified content; where a has no elements it is THE
+   array without elements of that shape, i.e. a itself as a value; elsewhere its content is not modelled: tag 34. *)
+Definition arr1_empty {T : Type} (a : list T) : bool := match a with [] => true | _ :: _ => false end.        (* a.size == 0 *)
+Definition arr2_empty {T : Type} (a : h5_2d T) : bool :=
+  Nat.eqb (fst a) 0 || match snd a with [] => true | _ :: _ => false end.
+Definition np_char_codec1 (a : list name) : result (list name) := if arr1_empty a then Err 33 else Ok a.
+Definition np_char_codec2 (a : h5_2d name) : result (h5_2d name) := if arr2_empty a then Err 33 else Ok a.
+Definition np_empty_like1 (a : list name) : result (list name) := if arr1_empty a then Ok a else Err 34.
+Definition np_empty_like2 (a : h5_2d name) : result (h5_2d name) := if arr2_empty a then Ok a else Err 34.
